@@ -106,8 +106,17 @@ func genReq(w *simrt.Stream, format string, i int) *absReq {
 		if strings.Contains(q.Tag, "__") && w.Draw(2) == 0 {
 			q.Tag = ""
 		}
+		if w.Draw(10) == 0 {
+			// the tag of a raw entry is the rest of the size line, blanks included
+			q.Tag = []string{"cart  checkout", "a\tb", "x   y z"}[w.Draw(3)]
+		}
 	default: // json
 		q.Method = genMethods[w.Draw(len(genMethods))]
+		if w.Draw(10) == 0 {
+			// method tokens are case-sensitive (RFC 9110): an extension method is sent as written
+			q.Method = []string{"Purge", "m-search", "Report"}[w.Draw(3)]
+			q.Body = nil
+		}
 		if q.Method != "GET" && q.Method != "HEAD" {
 			q.Body = []byte(genTextBodies[w.Draw(len(genTextBodies))])
 			if len(q.Body) == 0 {
@@ -259,6 +268,21 @@ func renderFile(format string, items []absItem, l layout) []byte {
 				e.Headers = map[string]string{}
 				for _, h := range q.Hdr {
 					e.Headers[h[0]] = h[1]
+				}
+			}
+			// one entry in three that names a host carries it as a Host header instead of the `host` field (an entry
+			// decides by its own text, so that every pass and every layout renders it the same way)
+			if _, has := e.Headers["Host"]; q.Host != "" && !has && (len(q.URI)+len(q.Tag))%3 == 0 {
+				if e.Headers == nil {
+					e.Headers = map[string]string{}
+				}
+				hk := "Host"
+				if len(q.URI)%2 == 0 {
+					hk = "host"
+				}
+				if _, has2 := e.Headers[hk]; !has2 {
+					e.Headers[hk] = q.Host
+					e.Host = ""
 				}
 			}
 			ents = append(ents, e)
